@@ -8,6 +8,22 @@ def repo_commits():
     return [l.split()[0] for l in out.splitlines() if " verif:" in " " + l]
 
 CHECKS = {
+ "C11": dict(
+  level="exploration", design="§4 C11",
+  technique="runtime monitoring: the compiler binary built from the tree is run on random valid programs x 8 targets x option sets and on mutated / hostile texts; emitted files are judged by each language's own parser or type checker (go build + go vet, CPython 2.7/3 compile, javac parse, json.loads + descriptor shape, html.parser; Dart lexical only); exit status, crash signatures and watchdog for the negative side; fixed witness programs per known defect class",
+  text="Core pool: every (program, target, option set) must exit 0 and every emitted file must be accepted by its language oracle. Negative pool (token delete/duplicate/swap, byte flips, truncation at every offset, unknown types, duplicate ids, cyclic typedefs/includes/extends, deep nesting, garbage): never a runtime panic / stack overflow / hang, never exit 0 for definitely-invalid input. Stress classes run in their own pools with per-class signatures.",
+  note="Dart: no toolchain in the sandbox, lexical balance only. Java: parsed, not type-checked. Explicit panic(...) diagnostics recovered by main are diagnostics, only Go runtime error signatures count as crashes."),
+ "C18": dict(
+  level="exploration", design="§4 C18",
+  technique="runtime monitoring: ground truth by construction - edit scripts labelled from the documented catalogue are applied to random base programs at every applicable site, old/new are audited by the real binary (and the in-process auditor for volume), expected exit != 0 iff the script contains a breaking operator",
+  text="Every single catalogued edit at every site of each base program (exhaustive per program), pairs of one breaking + one compatible edit, random scripts of 2-6 edits, identical programs re-rendered in another style: audit fails iff a breaking operator is present, at any position, nesting depth, through typedefs and in included files.",
+  note="Operator labels come from audit.go's requirement comments and the property text; edits outside both catalogues are not generated."),
+ "C19": dict(
+  level="exploration", design="§4 C19",
+  technique="runtime monitoring: repeated compilation of large random programs for every target/option set, comparing sha256 of every emitted file across repetitions, working directories, source roots (relative and absolute addressing) and -out locations",
+  text="Programs larger than the goldens in every map-backed dimension x 8 targets x option sets x 3-10 repetitions x 2-4 locations: the {relative path -> sha256} maps must be identical; a program accepted in one location and rejected in another is also a violation.",
+  note="java generated_annotations=use (dated by design) excluded. Map-iteration nondeterminism only shows with some probability per run; repetition is the experiment."),
+
  "C08": dict(
   level="exploration", design="§4 C08",
   technique="runtime monitoring / differential execution: emitted Go publishers and subscribers executed by reflection against recording transports, emitted Python (3 flavours) executed under stub modules, Java and Dart topic expressions extracted and evaluated; all compared with each other and a reference topic function",
